@@ -16,6 +16,7 @@ mod c11;
 mod c12;
 mod c07;
 mod c14;
+mod c15;
 mod c16;
 mod c17;
 mod c18;
@@ -64,6 +65,7 @@ fn main() {
         "C10" => c10::run(&o),
         "C11" => c11::run(&o),
         "C12" => c12::run(&o),
+        "C15" => c15::run(&o),
         "C16" => c16::run(&o),
         "C17" => c17::run(&o),
         "C18" => c18::run(&o),
